@@ -649,6 +649,43 @@ pub fn run(opts: &Opts) -> Report {
             }
         }
     }
+    // the clock is read by now() and zero-argument timestamp() only: every other call of a built-in or a conversion,
+    // whatever its arguments are (null, numbers, strings, lists, time values), gives the same answer when repeated later
+    {
+        let (mut names, _) = crate::facets::c01::builtin_names();
+        names.retain(|n| n != "now");
+        for t in ["timestamp", "duration", "int", "uint", "double", "string", "bool", "bytes", "dyn", "type"] {
+            names.push(t.to_string());
+        }
+        let vals: Vec<CelValue> = vec![
+            CelValue::Null, CelValue::Int(0), CelValue::Int(1_700_000_000), CelValue::UInt(5), CelValue::Float(1.5), CelValue::Bool(false),
+            CelValue::String("".into()), CelValue::String("2024-01-10T08:57:45Z".into()), CelValue::String("1h".into()), CelValue::String("UTC".into()),
+            CelValue::List(vec![]), CelValue::List(vec![CelValue::Null]), mk_value(4), CelValue::from_bytes(vec![0]),
+            crate::pool::all_values().into_iter().find(|v| matches!(v, CelValue::TimeStamp(_))).unwrap_or(CelValue::Null),
+            crate::pool::all_values().into_iter().find(|v| matches!(v, CelValue::Duration(_))).unwrap_or(CelValue::Null),
+        ];
+        let mut cases: Vec<(String, Vec<(String, CelValue)>)> = Vec::new();
+        for n in names.iter() {
+            {
+                for v in vals.iter() {
+                    cases.push((format!("{}(v)", n), vec![("v".to_string(), v.clone())]));
+                    cases.push((format!("v.{}()", n), vec![("v".to_string(), v.clone())]));
+                    cases.push((format!("{}(v, w)", n), vec![("v".to_string(), v.clone()), ("w".to_string(), CelValue::Null)]));
+                    cases.push((format!("v.{}(w)", n), vec![("v".to_string(), v.clone()), ("w".to_string(), CelValue::Null)]));
+                }
+            }
+        }
+        let first: Vec<String> = cases.iter().map(|(src, b)| crate::api::exec_src(src, b)).collect();
+        std::thread::sleep(std::time::Duration::from_millis(5));
+        for ((src, b), r1) in cases.iter().zip(first.iter()) {
+            let r2 = crate::api::exec_src(src, b);
+            rep.count(Some(&format!("clock-only|{}|{}", src, crate::wire::show_val(&b[0].1))));
+            rep.bump("clock-only:repeated call");
+            if *r1 != r2 {
+                rep.oracle_fail(&format!("{} with v = {}", src, crate::wire::show_val(&b[0].1)), &format!("{} then {}", r1, r2), "the same result twice", "only now() and zero-argument timestamp() may read the clock");
+            }
+        }
+    }
     rep.notes.push(format!("thread test: {} threads x {} repetitions x 12 histories, each thread with its own contexts", threads, reps));
     rep.exhaustive = true;
     rep.compare_with_model_par(&opts.driver, &pending, 16);
